@@ -1,8 +1,129 @@
-(* C11 -- stub while the proofs are being written *)
-From Coq Require Import ZArith List.
-From SX Require Import Base.Bytes Model.Json Model.ArpCache.
+(* C11 -- ARP output is a valid ARP cache; probes use the right destination MAC.
+   Statements only; proofs are in Proofs/ArpCacheProofs.v (and Proofs/JsonProofs.v for the JSON
+   line).  The ARP result schema is Gen.Schemas.arp_schema, regenerated from pkg/scan/arp on every
+   run. *)
+From Coq Require Import ZArith Bool Ascii String List Lia.
+From SX Require Import Base.Bytes Model.Json Gen.Schemas Model.ArpCache Proofs.JsonProofs Proofs.ArpCacheProofs.
 Import ListNotations.
 Open Scope Z_scope.
-Theorem C11_stub : cache_stage [] None [] = [].
-Proof. reflexivity. Qed.
-Print Assumptions C11_stub.
+
+(* per-byte text round trips, all 256 values: the decimal text of IP.String ... *)
+Theorem C11_byte_decimal : forall b, 0 <= b < 256 ->
+  enc_uint b = byte_digits b /\ forallb is_digit (enc_uint b) = true /\ parse_uint (enc_uint b) = Some b.
+Proof.
+  intros b H. split; [apply enc_uint_byte, H|]. split; [apply enc_uint_digits, H|].
+  apply enc_uint_parse. assert (256 < 2 ^ 64) by reflexivity. lia.
+Qed.
+
+(* ... and the two hex digits of HardwareAddr.String *)
+Theorem C11_byte_hex : forall b, 0 <= b < 256 ->
+  match hex2 b with [h; l] => xtoi2 h l = Some b | _ => False end.
+Proof. intros b H. apply xtoi2_hex2, H. Qed.
+
+(* net.ParseIP inverts IP.String on every IPv4 address; the 16-byte form it returns prints the same *)
+Theorem C11_ip_text_roundtrip : forall ip, is_ip4 ip ->
+  parse_ip_text (ip_text ip) = Some (v4_prefix ++ ip) /\ ip_text (v4_prefix ++ ip) = ip_text ip.
+Proof.
+  intros ip H. rewrite (ip_text_v4 ip H). split; [apply parse_ip_text_v4, H|apply ip_text_mapped, H].
+Qed.
+
+(* net.ParseMAC inverts HardwareAddr.String on every 6-byte MAC *)
+Theorem C11_mac_text_roundtrip : forall m, is_mac6 m -> parse_mac_text (mac_text m) = Some m.
+Proof. exact parse_mac_text_6. Qed.
+
+(* every line the ARP scan prints -- any 4-byte address, any 6-byte MAC, ANY vendor string -- is
+   accepted by the loader and maps exactly the printed address to the printed MAC; a later probe
+   for that address finds it whichever form (4-byte, 16-byte) its destination has *)
+Theorem C11_line_loads : forall ip mac vendor,
+  is_ip4 ip -> is_mac6 mac -> wf_bytes vendor = true ->
+  fill_cache [arp_object ip mac vendor] = inl [(ip_text ip, mac)] /\
+  cache_get [(ip_text ip, mac)] ip = Some mac /\
+  cache_get [(ip_text ip, mac)] (v4_prefix ++ ip) = Some mac.
+Proof.
+  intros ip mac vendor Hip Hmac Hv. unfold fill_cache. cbn [fill_cache_from].
+  rewrite load_arp_object by assumption. rewrite (ip_text_v4 ip Hip). split; [reflexivity|].
+  unfold cache_get. rewrite (ip_text_mapped ip Hip), (ip_text_v4 ip Hip). cbn [cache_lookup].
+  rewrite bytes_eqb_refl. split; reflexivity.
+Qed.
+
+(* the whole output of an ARP scan (any number of replies, repeated addresses) fed to FillCache as
+   the bytes of a file: it loads, and the cache holds one binding per line, newest first.  The
+   line-length hypothesis is bufio.Scanner's 64 KiB limit (vendor strings of gopacket's table
+   are below 100 bytes). *)
+Theorem C11_scan_output_loads : forall rs, Forall reply_ok rs ->
+  fill_cache_text (flat_map reply_line rs) = inl (rev (map reply_binding rs)).
+Proof.
+  intros rs H. unfold fill_cache_text. rewrite (scan_output_loads rs H []). rewrite app_nil_r. reflexivity.
+Qed.
+
+(* ALL cache files (any lines: other spellings, extra members, duplicates, garbage): the file loads
+   iff every line is good, and then every key holds the MAC of the LAST line that binds it *)
+Theorem C11_file_loads_iff : forall lines c,
+  fill_cache lines = inl c <-> exists bs, map binding lines = map Some bs /\ c = rev bs.
+Proof.
+  intros lines c. unfold fill_cache. rewrite fill_from_spec. split; intros [bs [H1 H2]]; exists bs; split; try exact H1.
+  - rewrite app_nil_r in H2. exact H2.
+  - rewrite app_nil_r. exact H2.
+Qed.
+
+Theorem C11_last_wins : forall lines c, fill_cache lines = inl c ->
+  forall k, cache_lookup k c = last_binding k lines.
+Proof. exact last_wins. Qed.
+
+(* the cache stage, for every cache, gateway setting and request: DstMAC := the cache entry of the
+   request's OWN destination if there is one, else the gateway MAC if there is one, else the request
+   is replaced by an error (DstMAC untouched); destination and port never change *)
+Theorem C11_dst_mac : forall c gw r,
+  ((exists m, cache_get c (rq_dst r) = Some m /\ rq_dstmac (cache_stage1 c gw r) = m /\
+              rq_err (cache_stage1 c gw r) = rq_err r) \/
+   (cache_get c (rq_dst r) = None /\ exists g, gw = Some g /\ rq_dstmac (cache_stage1 c gw r) = g /\
+              rq_err (cache_stage1 c gw r) = rq_err r) \/
+   (cache_get c (rq_dst r) = None /\ gw = None /\ rq_err (cache_stage1 c gw r) = true /\
+              rq_dstmac (cache_stage1 c gw r) = rq_dstmac r)) /\
+  rq_dst (cache_stage1 c gw r) = rq_dst r /\ rq_port (cache_stage1 c gw r) = rq_port r.
+Proof. intros c gw r. split; [apply stage_cases|apply stage_keeps]. Qed.
+
+(* never another host's MAC: for every loaded file and every IPv4 destination (4-byte or
+   IPv4-mapped 16-byte form) the cache answers with the MAC of the LAST line whose address is that
+   same IPv4 address -- whatever other lines (other hosts, IPv6 addresses, other spellings of the
+   same address) the file contains -- and with nothing if there is no such line *)
+Theorem C11_never_other_host : forall lines c d,
+  fill_cache lines = inl c -> is_ipv4 d = true -> cache_get c d = last_for d lines.
+Proof. exact never_other_host. Qed.
+
+(* what ParseIP accepts is always a 16-byte value (so cache keys are always canonical texts) *)
+Theorem C11_parse_ip_16 : forall s ip, parse_ip_text s = Some ip -> wf_bytes ip = true /\ length ip = 16%nat.
+Proof. exact parse_ip_text_out. Qed.
+
+(* non-vacuity *)
+Open Scope string_scope.
+Example C11_ex_line :
+  arp_line [192; 168; 0; 1] [176; 190; 118; 64; 5; 141] (str "TP-LINK TECHNOLOGIES CO.,LTD.")
+  = (str "{""ip"":""192.168.0.1"",""mac"":""b0:be:76:40:05:8d"",""vendor"":""TP-LINK TECHNOLOGIES CO.,LTD.""}" ++ [10])%list.
+Proof. vm_compute. reflexivity. Qed.
+Example C11_ex_file :
+  let file := (arp_line [10; 0; 0; 1] [0; 17; 34; 51; 68; 85] (str "A&B ""<x>""") ++
+               str "{""mac"":""AA-BB-CC-DD-EE-FF"",""x"":[1,{}],""ip"":""::ffff:a00:1""}" ++ [13; 10] ++
+               arp_line [10; 0; 0; 2] [2; 0; 0; 0; 0; 2] [])%list in
+  match fill_cache_text file with
+  | inl c => cache_get c [10; 0; 0; 1] = Some [170; 187; 204; 221; 238; 255] /\
+             cache_get c (v4_prefix ++ [10; 0; 0; 2]) = Some [2; 0; 0; 0; 0; 2] /\
+             dst_mac c None [10; 0; 0; 3] = None /\
+             dst_mac c (Some [1; 1; 1; 1; 1; 1]) [10; 0; 0; 3] = Some [1; 1; 1; 1; 1; 1]
+  | inr _ => False
+  end.
+Proof. vm_compute. repeat split; reflexivity. Qed.
+Example C11_ex_bad : fill_cache_text (str "{""ip"":""1.2.3.04"",""mac"":""00:11:22:33:44:55""}") = inr BadIP.
+Proof. vm_compute. reflexivity. Qed.
+
+Print Assumptions C11_byte_decimal.
+Print Assumptions C11_byte_hex.
+Print Assumptions C11_ip_text_roundtrip.
+Print Assumptions C11_mac_text_roundtrip.
+Print Assumptions C11_line_loads.
+Print Assumptions C11_scan_output_loads.
+Print Assumptions C11_file_loads_iff.
+Print Assumptions C11_last_wins.
+Print Assumptions C11_dst_mac.
+Print Assumptions C11_never_other_host.
+Print Assumptions C11_parse_ip_16.
